@@ -235,6 +235,11 @@ def gen_cases(rng, n_sort, n_sim):
             gen.simplify_feasible(rng, c)
         c["ops"] = [gen.gen_sim_op(rng, c)]
         c["ops"][0]["rule"] = i % 9
+        if i % 5 == 0:
+            # paused after a few steps and resumed under ANOTHER rule: the rule of the call in progress counts
+            o1 = dict(c["ops"][0], max_time=rng.choice([1, 2, 3]))
+            o2 = dict(c["ops"][0], init_state=False, init_log=False, rule=rng.choice([r for r in range(9) if r != o1["rule"]]))
+            c["ops"] = [o1, o2]
         cases.append(c)
     return cases
 
